@@ -1,4 +1,4 @@
-import SqlgrepModel.Lemmas.AggTotal
+import SqlgrepModel.Lemmas.AggBatch
 /-
 C04 — GROUP BY: one row per group, every aggregate computed from that group's rows.
 
@@ -14,7 +14,8 @@ The theorems below relate the two for ALL statements, inputs and histories:
                        STDDEV/VARIANCE, MIN, MAX, PERCENTILE, BOOL_AND, BOOL_OR, STRING_AGG, ARRAY_AGG);
   4. result            the table built from a coupled state is the specification's table: one row per distinct key,
                        ascending with NULL first, HAVING per group, DISTINCT per table, LIMIT = first n rows;
-  5. refinement        2 + 4 for a whole input.
+  5. refinement        2 + 4 for a whole input, including "no update fails", at engine level (`agg_refines_spec`) and for
+                       the very function the driver executes against the answer `./check` compares (`batch_model_eq_spec`).
 
 Known deviations of the code are carved out visibly, not hidden: D10 (a group in which no aggregate created a
 `group_values` entry is not listed) and D15 (ARRAY_AGG whose first value is NULL is refused) appear as the
@@ -192,6 +193,17 @@ theorem updates_do_not_fail {O : Oracles} {q : AggStmt} (hwf : StmtWF q) (envs :
   | some rows =>
     obtain ⟨hfolds, hkeys⟩ := foldsOk_of_spec hwf hr hspec hclass
     exact aggRun_progress envs (coupled_init O q) hr (by simpa using hfolds) hkeys
+
+/-- **`agg_refines_spec` at the level of the check itself.** `runBatch` is the function the compiled driver executes
+for a `batch` case (the `FileExecutor` loop over all files and lines, admission of lines, the engine, the final table
+printed once, the line count); `Spec.Agg.batch` is the specification's answer that `./check` compares with the
+implementation's. Whenever the specification answers and names no known deviation class, the two are EQUAL — so a
+case on which implementation and model agree (correspondence) and the class is empty is a case on which the
+implementation meets the specification, and vice versa. -/
+theorem batch_model_eq_spec {O : Oracles} {qy : Query} {q : AggStmt} (hq : qy.stmt = .aggregate q) (hwf : StmtWF q)
+    (joined : List FileLine) (files : List (List FileLine)) {ro : RunOut}
+    (h : Spec.Agg.batch O qy q joined files = some (ro, "")) : runBatch O qy joined files none = ro :=
+  batch_refines_spec hq hwf joined files h
 
 /-! ### non-vacuity -/
 
